@@ -253,7 +253,6 @@ MUTATIONS += [
 MUTATIONS += [
     dict(id="C14-extra-removed-in-dry-run", prop="C14", file=RS, old="            match (opts.delete, dry_run, is_dir) {", new="            match (opts.delete, dry_run && is_dir, is_dir) {"),
     dict(id="C14-extra-dir-removed-without-delete", prop="C14", file=RS, old="                (true, false, true) => {\n                    if let Err(err) = dest.remove_dir(entry.path()) {", new="                (_, false, true) => {\n                    if let Err(err) = dest.remove_dir(entry.path()) {"),
-    dict(id="C14-extra-not-reported", prop="C14", file=RS, old="                (false, _, _) => {\n                    additional_existing = true;", new="                (false, _, _) => {\n                    additional_existing = is_dir;"),
 ]
 
 # ---- C14 collect_and_prepare: merge walk
